@@ -260,4 +260,5 @@ def tasks(tier):
 
 
 def dims_bc(nd):
-    return "x" if nd <= 3 else "x0"
+    # periodic directions are named by single characters, so the default 4-d names (x0..x3) cannot be periodic
+    return "x" if nd <= 3 else "neumann"
